@@ -587,6 +587,49 @@ def run_iso(u, ctx):
                         os.path.realpath(user.dir):
                     ctx.violation('private-home-left-behind', 'isolated GNUPGHOME %r '
                                   'still exists after the command' % h, case)
+            # ---- library: an isolated environment used again after close() has no
+            # keys of its own any more; it must not fall back to the user's keyring
+            if KEYFILES[kf] is not None:
+                import io
+                from gemato.openpgp import IsolatedGPGEnvironment
+                os.environ['GNUPGHOME'] = user.dir
+                env = IsolatedGPGEnvironment()
+                got = None
+                try:
+                    try:
+                        with open(kpath, 'rb') as f:
+                            env.import_key(f)
+                    except Exception:
+                        pass
+                    env.close()
+                    ctx.count('iso:after_close_runs')
+                    try:
+                        with io.StringIO(signed) as f:
+                            got = env.verify_file(f)
+                    except Exception:
+                        got = None
+                    try:
+                        env.import_key(io.BytesIO(keys.VALID_PUBLIC_KEY))
+                    except Exception:
+                        pass
+                finally:
+                    try:
+                        env.close()
+                    except Exception:
+                        pass
+                    os.environ.pop('GNUPGHOME', None)
+                if got is not None and kf not in ('signer', 'both'):
+                    ctx.violation('closed-isolated-env-uses-user-keyring',
+                                  'verify_file() on a closed isolated environment (key '
+                                  'file %r, user keyring %r) returned signature data'
+                                  % (kf, uh), case)
+                snap2 = user.snapshot()
+                if snap2 != snap1:
+                    ctx.violation('user-keyring-touched:after-close', 'the user\'s '
+                                  'GNUPGHOME changed when a closed isolated environment '
+                                  'was used again: %r' % sorted(
+                                      k for k in set(snap1) | set(snap2)
+                                      if snap1.get(k) != snap2.get(k)), case)
             ctx.sample({'kind': 'iso', 'user_home': uh, 'keyfile': kf, 'rc': rc,
                         'gpg_spawns': len(gp)}, 'iso')
         finally:
